@@ -16,7 +16,7 @@ def go(c):
         print("facts", c, f.info.get("extract_s"), "s", {k: v["bodies"] for k, v in f.info["crates"].items()})
     except Exception as e:
         print("facts", c, "FAILED:", str(e)[-500:])
-ts = [threading.Thread(target=go, args=(c,)) for c in ("K1", "K2")]
+ts = [threading.Thread(target=go, args=(c,)) for c in ("K1", "K2", "K6")]
 [t.start() for t in ts]; [t.join() for t in ts]
 PY
 echo setup done
